@@ -29,3 +29,23 @@ add('C18',
     assumptions=['std::bitset / std::array / std::mt19937 of libstdc++ 12 are the executable references',
                  'PCG32 reference is an independent transcription of pcg-c-basic checked against its published known-answer output'],
     )
+
+# ---------------------------------------------------------------------------------------------- C13 / C16 (containers part)
+add('C13',
+    level='exploration',
+    rule='operation sequences on vector / small_vector<N> / dyn_array / stack / list / intrusive_list compared with reference sequences after every operation (ASan+UBSan, exact-size blocks)',
+    jobs=[job('containers', 'containers.cpp', args=['--arg', 'prop=C13'], shards={'quick': 8, 'thorough': 16}, hang_is_violation=True)],
+    min_evaluations={'quick': 50000, 'thorough': 1000000},
+    min_counters={'exhaustive_sequences': 10000, 'random_sequences': 1000},
+    assumptions=['std::vector / std::list are the executable reference sequences', 'ASan red zones behind exact-size blocks observe out-of-storage accesses next to a block'],
+    )
+
+C16_JOBS = [job('containers', 'containers.cpp', args=['--arg', 'prop=C16'], shards={'quick': 8, 'thorough': 16}, hang_is_violation=True)]
+add('C16',
+    level='exploration',
+    rule='operation sequences on every owning type with a lifetime-registering element type and a block-registering allocator; registries must be empty after the owner is destroyed',
+    jobs=C16_JOBS,
+    min_evaluations={'quick': 50000, 'thorough': 1000000},
+    min_counters={'alloc_blocks': 10000},
+    assumptions=['element lifetime is observed by address (Elem registry); raw storage is junk-filled so reads of never-constructed slots are deterministic'],
+    )
